@@ -35,8 +35,21 @@ class OpenedStub(Model):
 
     def __init__(self, ds, fsnames):
         self.ds, self.fsnames = ds, fsnames
+        self.closed = False          # the handle on the file: merge must give it back before the file is moved
+
+    def py_enter(self, I):
+        return self
+
+    def py_exit(self, I, exc):
+        self.closed = True
+        return False
 
     def py_getattr(self, I, name):
+        if name == 'close':
+            def close():
+                self.closed = True
+            from pyvc.values import Builtin
+            return Builtin('close', close, pure=False)
         if name == '_nc':
             return {n: None for n in self.fsnames}
         if name == 'index_group':
@@ -69,8 +82,20 @@ def setup_inputs(h, k, indexed=False, fsnames=None):
         if ds is None:
             I_.raise_('ValueError', f'Input file {key} does not exist')
         names = (fsnames or {}).get(ds.f.part if hasattr(ds.f, 'part') else 0, ('base',))
-        return OpenedStub(ds, names)
+        st = OpenedStub(ds, names)
+        gos.opened.append(st)
+        return st
     return files, gos, loaded, open_summary
+
+
+def handle_clauses(h, gos, when=''):
+    """merge() opens its inputs only to look at them (field sets, length, index): a file that is moved while a store still
+    holds it open is what the HDF5 library does not allow (observed natively: a merged store of six inputs opened right
+    after merge() ends the process with a segmentation fault; a retry after a failed merge fails with 'NetCDF: HDF error')."""
+    h.ensure('no-input-file-is-moved-while-merge-holds-it-open' + when, not gos.moved_while_open,
+             note='renamed while open: ' + ', '.join(gos.moved_while_open[:4]))
+    left = [st.ds.f.name for st in gos.opened if not st.closed]
+    h.ensure('merge-closes-every-store-it-opened' + when, not left, note='still open: ' + ', '.join(left[:4]))
 
 
 def ident(result):
@@ -111,6 +136,7 @@ def merge_open(h):
         h.fail('valid-merge-is-accepted', repr(e.inst) + ' at ' + str(e.inst.where))
         return
     del I.summaries[TS + '.open']
+    handle_clauses(h, gos)
     md = gos.json.get('out.aeic-store/metadata.json')
     h.ensure('metadata-lists-parts-in-the-given-order',
              isinstance(md, dict) and [s[0] for s in md.get('stores', [])] == [(f.name.split('/')[-1]) for f in files])
@@ -237,6 +263,7 @@ def merged_index(h):
     except PyExc as e:
         h.fail('valid-merge-is-accepted', repr(e.inst) + ' at ' + str(e.inst.where))
         return
+    handle_clauses(h, gos)
     ds = I.hooks['nc_files'].get('out.aeic-store/_index.nc')
     if ds is None or '_index' not in ds.groups:
         h.fail('merged-index-written', 'no _index.nc in the merged directory')
@@ -384,6 +411,56 @@ def replay_same_name(payload):
     return dict(reproduced=bool(problems), observed=problems, required='merged store = concatenation of the inputs, nothing lost')
 
 
+CHILD_MERGE_OPEN = r'''
+import os, sys
+from AEIC.trajectories import TrajectoryStore
+from contracts.C07 import _mk
+d, n = sys.argv[1], int(sys.argv[2])
+names, want, fid = [], [], 1000
+for j in range(n):
+    TrajectoryStore.active_in_thread = None
+    nm = os.path.join(d, f's{j}.nc')
+    with TrajectoryStore.create(base_file=nm) as ts:
+        for _ in range(3):
+            fid -= 7
+            ts.add(_mk(len(want), fid=fid))
+            want.append((float(1000 + len(want)), fid))
+    names.append(nm)
+out = os.path.join(d, 'out.aeic-store')
+TrajectoryStore.active_in_thread = None
+TrajectoryStore.merge(out, names)
+print('MERGED', flush=True)
+TrajectoryStore.active_in_thread = None
+with TrajectoryStore.open(base_file=out) as ms:
+    assert len(ms) == len(want), (len(ms), len(want))
+    for i, (mass, f_id) in enumerate(want):
+        assert ms[i].starting_mass == mass, i
+        t = ms.get_flight(f_id)
+        assert t is not None and t.starting_mass == mass, f_id
+print('READ-BACK-OK', flush=True)
+'''
+
+
+def native_merge_then_open(n_parts=6):
+    """merge() of n stores followed at once by opening the merged store, in a child process (a file moved while a store
+    still holds it open ends the process inside the HDF5 library, so the scenario cannot run in the replay process)."""
+    import os
+    import shutil
+    import subprocess
+    import sys
+    import tempfile
+    tmp = tempfile.mkdtemp(prefix='c09h-', dir=os.environ.get('VERIF_SCRATCH'))
+    try:
+        p = subprocess.run([sys.executable, '-c', CHILD_MERGE_OPEN, tmp, str(n_parts)], capture_output=True, text=True, timeout=600)
+        if 'READ-BACK-OK' in p.stdout and p.returncode == 0:
+            return []
+        stage = 'opening / reading the merged store' if 'MERGED' in p.stdout else 'merge()'
+        how = f'killed by signal {-p.returncode}' if p.returncode < 0 else f'exit {p.returncode}: {p.stderr.strip().splitlines()[-1:]}'
+        return [f'{n_parts} input stores merged and the merged store opened right away: the process ends during {stage} ({how})']
+    finally:
+        shutil.rmtree(tmp, ignore_errors=True)
+
+
 def replay(payload):
     import os
     import shutil
@@ -394,6 +471,7 @@ def replay(payload):
     tmp = tempfile.mkdtemp(prefix='c09-', dir=os.environ.get('VERIF_SCRATCH'))
     problems = []
     try:
+        problems += native_merge_then_open(6)
         for names, sizes in ((['s2.nc', 's1.nc', 's3.nc'], [3, 1, 2]), (['p8.nc', 'p9.nc', 'p10.nc', 'p11.nc'], [2, 1, 3, 1])):
             d = os.path.join(tmp, 'case' + str(len(names)))
             os.mkdir(d)
